@@ -99,7 +99,7 @@ func readDirectives(dir string) ([]*Directive, []string, error) {
 				}
 			}
 			switch d.Kind {
-			case "verify", "lemma", "bounded", "loop", "opaque", "global":
+			case "verify", "lemma", "bounded", "loop", "opaque", "global", "assume":
 			default:
 				fh.Close()
 				return nil, nil, fmt.Errorf("%s:%d: unknown directive %q", fn, ln, d.Kind)
